@@ -46,6 +46,7 @@ def batch? : List String → Option (BatchFn × List String)
   | "sumall" :: r => some (.sumall, r)
   | "droplast" :: r => some (.droplast, r)
   | "dupfirst" :: r => some (.dupfirst, r)
+  | "countrow" :: r => some (.countrow, r)
   | _ => none
 
 def comb? : List String → Option (Comb × List String)
